@@ -1,5 +1,296 @@
-import Solvor.Lp.Model
-/-! Lp: property theorems only (helper lemmas live in Lemmas.lean). -/
+import Solvor.Lp.Lemmas
+/-!
+Lp: property theorems of C03 (LP verdicts and optima).
+
+Layer T-spec: the certificate theorems (`weak_duality_cert`, `farkas_cert`, `ray_cert`,
+`verdict_unique`, `approx_duality`) over `Fin m → Fin n → ℚ`, and the soundness of the Bool
+checkers the driver evaluates on every explored input (`chkOptimal_sound`, `chkInfeasible_sound`,
+`chkUnbounded_sound`, `certifies_sound`, tolerance checkers `…_iff`).  With `verdict_unique`, one
+accepted certificate pins the verdict of that input: a status different from it is wrong.
+-/
 namespace Solvor.Lp
+open Finset
+open Solvor.Gen (Status)
+
+section spec
+variable {m n : ℕ} (P : LPF m n)
+
+/-- **[C] weak_duality_cert**: `x` feasible, `y ≥ 0`, `c + Aᵀy ≥ 0`, `c·x = −y·b` ⇒ `x` is optimal
+and every optimal point has this objective value (the value *is* the optimum). -/
+theorem weak_duality_cert (x : Fin n → ℚ) (y : Fin m → ℚ) (hx : P.Feasible x)
+    (hy : ∀ i, 0 ≤ y i) (hd : ∀ j, 0 ≤ P.c j + ∑ i, y i * P.A i j)
+    (hgap : P.obj x = -(∑ i, y i * P.b i)) :
+    P.IsOptimal x ∧ ∀ x', P.IsOptimal x' → P.obj x' = P.obj x := by
+  have opt : P.IsOptimal x := ⟨hx, fun x' hx' => by rw [hgap]; exact weak_duality P x' y hx' hy hd⟩
+  exact ⟨opt, fun x' h' => le_antisymm (h'.2 x hx) (opt.2 x' h'.1)⟩
+
+example : (⟨fun _ _ => 1, fun _ => 4, fun _ => -1⟩ : LPF 1 2).IsOptimal (fun _ => 2) :=
+  (weak_duality_cert _ (fun _ => 2) (fun _ => 1) ⟨by intro j; norm_num, by intro i; simp; norm_num⟩
+    (by intro i; norm_num) (by intro j; simp) (by simp [LPF.obj]; norm_num)).1
+
+/-- **[C] farkas_cert**: `y ≥ 0`, `Aᵀy ≥ 0`, `y·b < 0` ⇒ no feasible point. -/
+theorem farkas_cert (y : Fin m → ℚ) (hy : ∀ i, 0 ≤ y i) (hd : ∀ j, 0 ≤ ∑ i, y i * P.A i j)
+    (hb : ∑ i, y i * P.b i < 0) : P.Infeasible := by
+  intro x hx
+  have h1 : ∑ i, y i * (∑ j, P.A i j * x j) ≤ ∑ i, y i * P.b i :=
+    Finset.sum_le_sum fun i _ => mul_le_mul_of_nonneg_left (hx.2 i) (hy i)
+  have h2 := sum_swap P x y
+  have h3 : 0 ≤ ∑ j, (∑ i, y i * P.A i j) * x j :=
+    Finset.sum_nonneg fun j _ => mul_nonneg (hd j) (hx.1 j)
+  linarith
+
+example : (⟨fun _ _ => 1, fun _ => -1, fun _ => 0⟩ : LPF 1 1).Infeasible :=
+  farkas_cert _ (fun _ => 1) (by intro i; norm_num) (by intro j; simp) (by simp)
+
+/-- **[C] ray_cert**: `x` feasible, `d ≥ 0`, `A d ≤ 0`, `c·d < 0` ⇒ feasible points of
+arbitrarily good objective exist. -/
+theorem ray_cert (x d : Fin n → ℚ) (hx : P.Feasible x) (hd : ∀ j, 0 ≤ d j)
+    (hAd : ∀ i, ∑ j, P.A i j * d j ≤ 0) (hcd : P.obj d < 0) : P.Unbounded := by
+  refine ⟨⟨x, hx⟩, fun M => ?_⟩
+  -- the point `x + t d` with `t = max 0 ((M - c·x)/(c·d)) + 1`
+  let t : ℚ := max 0 ((M - P.obj x) / P.obj d) + 1
+  have ht0 : 0 < t := by have := le_max_left 0 ((M - P.obj x) / P.obj d); linarith
+  have ht1 : (M - P.obj x) / P.obj d < t := by
+    have := le_max_right 0 ((M - P.obj x) / P.obj d); linarith
+  refine ⟨fun j => x j + t * d j, ⟨fun j => ?_, fun i => ?_⟩, ?_⟩
+  · have := hx.1 j; have := mul_nonneg ht0.le (hd j); linarith
+  · have e : ∑ j, P.A i j * (x j + t * d j) = ∑ j, P.A i j * x j + t * ∑ j, P.A i j * d j := by
+      rw [Finset.mul_sum, ← Finset.sum_add_distrib]
+      exact Finset.sum_congr rfl fun j _ => by ring
+    rw [e]
+    have := hx.2 i
+    have := mul_nonpos_of_nonneg_of_nonpos ht0.le (hAd i)
+    linarith
+  · have e : P.obj (fun j => x j + t * d j) = P.obj x + t * P.obj d := by
+      unfold LPF.obj
+      rw [Finset.mul_sum, ← Finset.sum_add_distrib]
+      exact Finset.sum_congr rfl fun j _ => by ring
+    rw [e]
+    have h := (div_lt_iff_of_neg hcd).mp ht1
+    linarith
+
+example : (⟨fun _ _ => -1, fun _ => 0, fun _ => -1⟩ : LPF 1 1).Unbounded :=
+  ray_cert _ (fun _ => 0) (fun _ => 1) ⟨by intro j; simp, by intro i; simp⟩ (by intro j; norm_num)
+    (by intro i; simp) (by simp [LPF.obj])
+
+/-- **[C] verdict_unique**: the three verdicts exclude each other, so for one LP at most one kind
+of certificate can exist; "answers X exactly when X holds" is therefore decided by comparing the
+status with a certified verdict. -/
+theorem verdict_unique {s s' : Status} (h : P.Verdict s) (h' : P.Verdict s') : s = s' := by
+  have oi : P.HasOptimum → P.Infeasible → False := fun ⟨x, hx⟩ hi => hi x hx.1
+  have iu : P.Infeasible → P.Unbounded → False := fun hi ⟨⟨x, hx⟩, _⟩ => hi x hx
+  have ou : P.HasOptimum → P.Unbounded → False := fun ⟨x, hx⟩ ⟨_, hu⟩ => by
+    obtain ⟨x', hf, hlt⟩ := hu (P.obj x)
+    exact absurd (hx.2 x' hf) (not_le.mpr hlt)
+  cases s <;> cases s' <;> simp only [LPF.Verdict] at h h' <;>
+    first
+    | rfl | exact h.elim | exact h'.elim | exact (oi h h').elim | exact (oi h' h).elim
+    | exact (iu h h').elim | exact (iu h' h).elim | exact (ou h h').elim | exact (ou h' h).elim
+
+example : (⟨fun _ _ => 1, fun _ => -1, fun _ => 0⟩ : LPF 1 1).Verdict .INFEASIBLE :=
+  farkas_cert _ (fun _ => 1) (by intro i; norm_num) (by intro j; simp) (by simp)
+
+/-- **[C] approx_duality** (the interior-point `OPTIMAL` test).  Let `(x, s, y, zx, zs)` be an
+iterate with `x, s, zx, zs ≥ 0` whose primal residual `A x + s − b`, dual residuals
+`Aᵀy + zx − c` and `y + zs` are componentwise within `ε`, and whose complementarity
+`zx·x + zs·s` is at most `(n+m)ε`.  Then
+* `x` is feasible within `ε`;
+* against every feasible `x'`: `c·x − c·x' ≤ ε·(‖y‖₁ + (n+m) + ‖x‖₁ + ‖s‖₁ + ‖x'‖₁ + ‖b − A x'‖₁)`;
+* against every exactly certified optimum (`x*` with dual certificate `y*`):
+  `c·x* − c·x ≤ ε·‖y*‖₁` (sensitivity of the optimum to the `ε`-relaxed right-hand side).
+So the reported objective lies within an explicit `δ(ε)` of the optimum, `δ` linear in `ε` with the
+box bounds on the iterate and on the optimum as coefficients. -/
+theorem approx_duality (ε : ℚ) (hε : 0 ≤ ε) (x zx : Fin n → ℚ) (s y zs : Fin m → ℚ)
+    (hx : ∀ j, 0 ≤ x j) (hs : ∀ i, 0 ≤ s i) (hzx : ∀ j, 0 ≤ zx j) (hzs : ∀ i, 0 ≤ zs i)
+    (hrb : ∀ i, |∑ j, P.A i j * x j + s i - P.b i| ≤ ε)
+    (hrc : ∀ j, |∑ i, y i * P.A i j + zx j - P.c j| ≤ ε)
+    (hrs : ∀ i, |y i + zs i| ≤ ε)
+    (hmu : ∑ j, zx j * x j + ∑ i, zs i * s i ≤ ((n : ℚ) + m) * ε) :
+    P.FeasTol ε x ∧
+    (∀ x', P.Feasible x' →
+      P.obj x - P.obj x' ≤ ε * (∑ i, |y i| + ((n : ℚ) + m) + ∑ j, x j + ∑ i, s i + ∑ j, x' j
+        + ∑ i, (P.b i - ∑ j, P.A i j * x' j))) ∧
+    (∀ (xs : Fin n → ℚ) (ys : Fin m → ℚ), P.Feasible xs → (∀ i, 0 ≤ ys i) →
+      (∀ j, 0 ≤ P.c j + ∑ i, ys i * P.A i j) → P.obj xs = -(∑ i, ys i * P.b i) →
+      P.obj xs - P.obj x ≤ ε * ∑ i, ys i) := by
+  have hft : P.FeasTol ε x := by
+    refine ⟨fun j => by have := hx j; linarith, fun i => ?_⟩
+    have := le_trans (le_abs_self _) (hrb i); have := hs i; linarith
+  refine ⟨hft, fun x' hx' => ?_, fun xs ys _ hys hds hgap => ?_⟩
+  · -- upper side
+    let s' : Fin m → ℚ := fun i => P.b i - ∑ j, P.A i j * x' j
+    have hs' : ∀ i, 0 ≤ s' i := fun i => by have := hx'.2 i; simp only [s']; linarith
+    have e1 := obj_decomp P x zx y
+    have e2 := yAx_decomp P x y s zs
+    have e1' := obj_decomp P x' zx y
+    have e2' := yAx_decomp P x' y s' zs
+    have z0 : ∑ i, y i * (∑ j, P.A i j * x' j + s' i - P.b i) = 0 :=
+      Finset.sum_eq_zero fun i _ => by simp only [s']; ring
+    have w1 := sum_swap P x y
+    have w1' := sum_swap P x' y
+    have b1 := (sum_mul_le _ x hrc hx).2
+    have b2 := (sum_mul_le _ s hrs hs).2
+    have b3 := sum_mul_abs_le y _ hrb
+    have b1' := (sum_mul_le _ x' hrc hx'.1).1
+    have b2' := (sum_mul_le _ s' hrs hs').1
+    have p1 : 0 ≤ ∑ j, zx j * x' j := Finset.sum_nonneg fun j _ => mul_nonneg (hzx j) (hx'.1 j)
+    have p2 : 0 ≤ ∑ i, zs i * s' i := Finset.sum_nonneg fun i _ => mul_nonneg (hzs i) (hs' i)
+    have exp : ε * (∑ i, |y i| + ((n : ℚ) + m) + ∑ j, x j + ∑ i, s i + ∑ j, x' j + ∑ i, s' i)
+        = ε * ∑ i, |y i| + ((n : ℚ) + m) * ε + ε * ∑ j, x j + ε * ∑ i, s i + ε * ∑ j, x' j
+          + ε * ∑ i, s' i := by ring
+    show P.obj x - P.obj x' ≤ ε * (∑ i, |y i| + ((n : ℚ) + m) + ∑ j, x j + ∑ i, s i + ∑ j, x' j
+        + ∑ i, s' i)
+    rw [exp]
+    linarith
+  · -- lower side: weak duality of the exact certificate against the ε-feasible point
+    have h1 : ∑ i, ys i * (∑ j, P.A i j * x j) ≤ ∑ i, ys i * (P.b i + ε) :=
+      Finset.sum_le_sum fun i _ => mul_le_mul_of_nonneg_left (hft.2 i) (hys i)
+    have h2 := sum_swap P x ys
+    have h3 : 0 ≤ ∑ j, (P.c j + ∑ i, ys i * P.A i j) * x j :=
+      Finset.sum_nonneg fun j _ => mul_nonneg (hds j) (hx j)
+    have h4 : ∑ j, (P.c j + ∑ i, ys i * P.A i j) * x j
+        = P.obj x + ∑ j, (∑ i, ys i * P.A i j) * x j := by
+      unfold LPF.obj
+      rw [← Finset.sum_add_distrib]; exact Finset.sum_congr rfl fun j _ => by ring
+    have h5 : ∑ i, ys i * (P.b i + ε) = ∑ i, ys i * P.b i + ε * ∑ i, ys i := by
+      rw [Finset.mul_sum, ← Finset.sum_add_distrib]; exact Finset.sum_congr rfl fun i _ => by ring
+    linarith
+
+/-- non-vacuity: the exact optimum `x = 2` of `min −x, x ≤ 2` with `y = 1` meets the hypotheses for
+every `ε ≥ 0`. -/
+example (ε : ℚ) (hε : 0 ≤ ε) :
+    (⟨fun _ _ => 1, fun _ => 2, fun _ => -1⟩ : LPF 1 1).FeasTol ε (fun _ => 2) :=
+  (approx_duality _ ε hε (fun _ => 2) (fun _ => 0) (fun _ => 0) (fun _ => -1) (fun _ => 1)
+    (by intro; norm_num) (by intro; norm_num) (by intro; norm_num) (by intro; norm_num)
+    (by intro i; simpa using hε) (by intro j; simpa using hε) (by intro i; simpa using hε)
+    (by simp; positivity)).1
+
+end spec
+
+/-! ### The Bool checkers the driver evaluates (list data) are sound for the spec -/
+section checkers
+variable (P : LP)
+
+/-- **T-spec** `chkFeasible` decides feasibility. -/
+theorem chkFeasible_spec (x : Vec) : chkFeasible P x = true ↔ P.toF.Feasible (vecF P.n x) :=
+  chkFeasible_iff P x
+
+/-- **T-spec** an accepted optimality certificate proves: `x` is optimal for this input and its
+objective value is the optimum. -/
+theorem chkOptimal_sound (x y : Vec) (h : chkOptimal P x y = true) :
+    P.toF.IsOptimal (vecF P.n x) ∧ ∀ x', P.toF.IsOptimal x' → P.toF.obj x' = P.objAt x := by
+  unfold chkOptimal at h
+  simp only [Bool.and_eq_true, allTo_iff, decide_eq_true_eq] at h
+  obtain ⟨⟨⟨hf, hy⟩, hd⟩, hg⟩ := h
+  rw [objAt_eq]
+  refine weak_duality_cert P.toF (vecF P.n x) (vecF P.m y) ((chkFeasible_iff P x).mp hf) hy ?_ ?_
+  · intro j; have := hd j; rw [colDot_eq] at this; exact this
+  · rw [← objAt_eq, hg, rhsDot_eq]
+
+/-- **T-spec** an accepted Farkas certificate proves infeasibility of this input. -/
+theorem chkInfeasible_sound (y : Vec) (h : chkInfeasible P y = true) : P.toF.Infeasible := by
+  unfold chkInfeasible at h
+  simp only [Bool.and_eq_true, allTo_iff, decide_eq_true_eq] at h
+  obtain ⟨⟨hy, hd⟩, hb⟩ := h
+  refine farkas_cert P.toF (vecF P.m y) hy ?_ ?_
+  · intro j; have := hd j; rw [colDot_eq] at this; exact this
+  · rw [← rhsDot_eq]; exact hb
+
+/-- **T-spec** an accepted vertex + ray proves unboundedness of this input. -/
+theorem chkUnbounded_sound (x d : Vec) (h : chkUnbounded P x d = true) : P.toF.Unbounded := by
+  unfold chkUnbounded at h
+  simp only [Bool.and_eq_true, allTo_iff, decide_eq_true_eq] at h
+  obtain ⟨⟨⟨hf, hd⟩, hAd⟩, hc⟩ := h
+  refine ray_cert P.toF (vecF P.n x) (vecF P.n d) ((chkFeasible_iff P x).mp hf) hd ?_ ?_
+  · intro i; have := hAd i; rw [rowDot_eq] at this; exact this
+  · rw [← objAt_eq]; exact hc
+
+/-- **T-spec** what the driver reports as "certified": the model's status is the true verdict of
+this input whenever the checker belonging to that status accepts the model's certificate. -/
+theorem certifies_sound (o : LpOut) (h : certifies P o = true) : P.toF.Verdict o.status := by
+  unfold certifies at h
+  cases hs : o.status <;> rw [hs] at h <;> simp only [LPF.Verdict] <;>
+    first
+    | exact ⟨_, (chkOptimal_sound P _ _ h).1⟩
+    | exact chkInfeasible_sound P _ h
+    | exact chkUnbounded_sound P _ _ h
+    | exact absurd h (by simp)
+
+/-- Two certified runs on the same input (the mirror at the code's `eps`, the exact run at
+`eps = 0`, or any other solver's certificate) agree on the verdict. -/
+theorem certified_status_unique (o o' : LpOut) (h : certifies P o = true) (h' : certifies P o' = true) :
+    o.status = o'.status :=
+  verdict_unique P.toF (certifies_sound P o h) (certifies_sound P o' h')
+
+/-- **T-spec** tolerance checker on the implementation's point. -/
+theorem chkFeasTol_iff (tol : ℚ) (x : Vec) :
+    chkFeasTol P tol x = true ↔ P.toF.FeasTol tol (vecF P.n x) := by
+  unfold chkFeasTol LPF.FeasTol
+  rw [Bool.and_eq_true, allTo_iff, allTo_iff]
+  simp only [decide_eq_true_eq]
+  constructor
+  · rintro ⟨h1, h2⟩; exact ⟨h1, fun i => by rw [← rowDot_eq]; exact h2 i⟩
+  · rintro ⟨h1, h2⟩; exact ⟨h1, fun i => by rw [rowDot_eq]; exact h2 i⟩
+
+/-- **T-spec** `|c·x − obj| ≤ tol`. -/
+theorem chkObjAt_iff (tol : ℚ) (x : Vec) (obj : ℚ) :
+    chkObjAt P tol x obj = true ↔ |P.toF.obj (vecF P.n x) - obj| ≤ tol := by
+  unfold chkObjAt; rw [decide_eq_true_eq, absR_eq, objAt_eq]
+
+/-- **T-spec** `|obj − opt| ≤ tol (1 + |opt|)`. -/
+theorem chkObjNear_iff (tol obj opt : ℚ) :
+    chkObjNear tol obj opt = true ↔ |obj - opt| ≤ tol * (1 + |opt|) := by
+  unfold chkObjNear; rw [decide_eq_true_eq, absR_eq, absR_eq]
+
+/-- **T-spec** the interior-point `FEASIBLE` check: `x ≥ 0` and the squared positive part of
+`A x − b` is at most `r²`. -/
+theorem chkResidual_iff (r : ℚ) (x : Vec) :
+    chkResidual P r x = true ↔
+      (∀ j : Fin P.n, 0 ≤ vecF P.n x j) ∧
+      ∑ i : Fin P.m, (max 0 (∑ j, P.toF.A i j * vecF P.n x j - P.toF.b i)) ^ 2 ≤ r ^ 2 := by
+  unfold chkResidual
+  rw [Bool.and_eq_true, allTo_iff]
+  simp only [decide_eq_true_eq]
+  have e : P.resid2 x = ∑ i : Fin P.m, (max 0 (∑ j, P.toF.A i j * vecF P.n x j - P.toF.b i)) ^ 2 := by
+    unfold LP.resid2; rw [sumTo_eq_sum]
+    refine Finset.sum_congr rfl fun i _ => ?_
+    simp only []
+    rw [rowDot_eq]
+    have hb : P.toF.b i = vget P.b i := rfl
+    rw [hb]
+    show (if 0 < _ then _ else _) = _
+    split
+    · rename_i h; rw [max_eq_right h.le]; ring
+    · rename_i h; rw [max_eq_left (not_lt.mp h)]; ring
+  rw [e, sq r]
+  exact Iff.rfl
+
+/-- The positive part of `A x − b` is the least primal residual: for every slack vector `s ≥ 0`,
+`∑ max(0, (A x − b)_i)² ≤ ∑ (A x + s − b)_i²`.  So `primal_inf < 0.01` in the code (which has such an
+`s`) implies the checker's condition. -/
+theorem residual_least {m n : ℕ} (Q : LPF m n) (x : Fin n → ℚ) (s : Fin m → ℚ) (hs : ∀ i, 0 ≤ s i) :
+    ∑ i, (max 0 (∑ j, Q.A i j * x j - Q.b i)) ^ 2 ≤ ∑ i, (∑ j, Q.A i j * x j + s i - Q.b i) ^ 2 := by
+  refine Finset.sum_le_sum fun i _ => ?_
+  rcases le_total (∑ j, Q.A i j * x j - Q.b i) 0 with h | h
+  · rw [max_eq_left h]; simp only [ne_eq, OfNat.ofNat_ne_zero, not_false_eq_true, zero_pow]
+    exact sq_nonneg _
+  · rw [max_eq_right h]
+    have := hs i
+    nlinarith [sq_nonneg (s i)]
+
+end checkers
+
+/-! ### Non-vacuity on a concrete instance: the mirror's certificate for
+`max 3x+2y, x+y ≤ 4, x ≤ 2, y ≤ 3` (phase 2 only) and for an LP that needs phase 1 -/
+example : certifies (mkLP [3, 2] [[1, 1], [1, 0], [0, 1]] [4, 2, 3] false)
+    (solveLp [3, 2] [[1, 1], [1, 0], [0, 1]] [4, 2, 3] false 0 100) = true := by decide +kernel
+example : (solveLp [3, 2] [[1, 1], [1, 0], [0, 1]] [4, 2, 3] false 0 100).objective = some 10 := by
+  decide +kernel
+example : (solveLp [1, 2] [[-1, 0], [0, -1], [1, 1]] [-1, -1, 1] true 0 100).status = .INFEASIBLE ∧
+    certifies (mkLP [1, 2] [[-1, 0], [0, -1], [1, 1]] [-1, -1, 1] true)
+      (solveLp [1, 2] [[-1, 0], [0, -1], [1, 1]] [-1, -1, 1] true 0 100) = true := by decide +kernel
+example : (solveLp [-1, 0] [[1, -1], [-1, 1]] [1, -1] true 0 100).status = .UNBOUNDED ∧
+    certifies (mkLP [-1, 0] [[1, -1], [-1, 1]] [1, -1] true)
+      (solveLp [-1, 0] [[1, -1], [-1, 1]] [1, -1] true 0 100) = true := by decide +kernel
 
 end Solvor.Lp
